@@ -161,3 +161,15 @@ func vhDefNegClass() Rules {
 func vhDefPossessive() Rules { // backtracking and possessive matching of P differ on "aab"
 	return Rules{"Root": {{"P", `a*ab`, nil}, {"A", `a`, nil}, {"B", `b`, nil}}}
 }
+
+func vhDefReturnNested() Rules { // two Return() rules can fire within one Next
+	return Rules{
+		"Root": {{"A", `a`, Push("S1")}, {"B", `b`, nil}},
+		"S1":   {{"C", `c`, Push("S2")}, Return()},
+		"S2":   {{"D", `d`, nil}, Return()},
+	}
+}
+
+func vhDefReturnSelf() Rules { // Return() reachable in Root, Root pushed onto itself
+	return Rules{"Root": {{"A", `a`, Push("Root")}, Return()}}
+}
